@@ -150,8 +150,36 @@ def run(ctx):
                                          'got': [{'id': 1, 'table': False, 'target': False}]}])
     s0 = ctx.tlc('TraversalTrace', env={'VERIF_TRACES': ctx.work / 'empty.json'}, workers=1, name='schema')
     schema = parse_schema(s0.out)
+    # boolean condition shapes from ExprPrec.tla (every AND / OR / NOT tree up to 3 operators, minimal and full
+    # parentheses) with a placeholder comparison at every leaf, in every clause that takes a condition
+    shapes = set()
+    for cfg in ('ExprPrec_all2.cfg', 'ExprPrec_full2.cfg', 'ExprPrec_all3.cfg' if thorough else 'ExprPrec_reps3.cfg'):
+        rr = ctx.tlc('ExprPrec', cfg=cfg, name='c12_' + cfg[:-4], timeout=3000)
+        if rr.violated or not rr.ok:
+            raise MachineryError('ExprPrec %s: %s' % (cfg, rr.violated))
+        for v in find_prints(rr.out, 'CASE'):
+            toks = list(v[1])
+            if set(toks) <= {'L', 'AND', 'OR', 'NOT', '(', ')'} and toks.count('L') >= 2:
+                shapes.add(tuple(toks))
+    gen = []
+    for toks in sorted(shapes):
+        k = 0
+        parts = []
+        for t in toks:
+            if t == 'L':
+                k += 1
+                parts.append('c%d = ?' % k)
+            else:
+                parts.append(t)
+        cond = ' '.join(parts)
+        for tmpl in ('select a from int1.t where %s', 'select a from int1.t group by a having %s', 'delete from int1.t where %s',
+                     'update int1.t set a = 1 where %s', 'select * from int1.t1 join int1.t2 on %s',
+                     'select a from int1.t where z = ? and (%s) and y = ?'):
+            gen.append(tmpl % cond)
+    ctx.cov['boolean_shapes'] = len(shapes)
+    numbering = STATEMENTS + gen
     traces = []
-    for sql in STATEMENTS:
+    for sql in numbering:
         tree = parse_sql(sql, 'mindsdb')
         pj = Projector(schema)
         t = pj.tree(tree)
@@ -164,7 +192,7 @@ def run(ctx):
     if len(ver) != len(traces):
         raise MachineryError('param order: judged %d of %d' % (len(ver), len(traces)))
     order_bad = {}
-    for i, sql in enumerate(STATEMENTS):
+    for i, sql in enumerate(numbering):
         kind, j, want = ver[i + 1]
         if len(want) != count_holes(sql):
             raise MachineryError('spec/harness disagreement on the number of placeholders in %r (projection misses a '
